@@ -18,7 +18,7 @@ from . import c18 as _c18
 PROP = "C22"
 
 LintedDir2 = ref_class("sqlfluff.core.linter.linted_dir:LintedDir", _num_files=INT, _num_clean=INT, _num_unclean=INT,
-                       _num_violations=INT, _records=TList(SINK))
+                       _num_violations=INT)
 Counts = TRec("Counts", {"files": INT, "clean": INT, "unclean": INT, "violations": INT}, is_dict=True)
 Handler = ref_class("sqlfluff.cli.commands:PathAndUserErrorHandler", formatter=SINK)
 _stmts.SINK_FUNCTIONS.update({"click.utils:echo", "click.termui:getchar"})
